@@ -329,6 +329,10 @@ pub async fn client_entrypoint(
     }
 }
 
+/// Longest startup packet and password message accepted from a client that has not
+/// authenticated yet (PostgreSQL's MAX_STARTUP_PACKET_LENGTH).
+const MAX_STARTUP_PACKET_LENGTH: i32 = 10000;
+
 /// Handle the first message the client sends.
 async fn get_startup<S>(stream: &mut S) -> Result<(ClientConnectionType, BytesMut), Error>
 where
@@ -339,6 +343,13 @@ where
         Ok(len) => len,
         Err(_) => return Err(Error::ClientBadStartup),
     };
+
+    // The length counts itself and the request code that follows it; PostgreSQL
+    // refuses startup packets longer than 10000 bytes. Nothing is allocated on the
+    // word of a client that has not authenticated yet.
+    if !(8..=MAX_STARTUP_PACKET_LENGTH).contains(&len) {
+        return Err(Error::ClientBadStartup);
+    }
 
     // Get the rest of the message.
     let mut startup = vec![0u8; len as usize - 4];
@@ -535,6 +546,13 @@ where
                         }
                     };
 
+                    if !(4..=MAX_STARTUP_PACKET_LENGTH).contains(&len) {
+                        return Err(Error::ClientSocketError(
+                            "password message length".into(),
+                            client_identifier,
+                        ));
+                    }
+
                     let mut password_response = vec![0u8; (len - 4) as usize];
 
                     match read.read_exact(&mut password_response).await {
@@ -625,6 +643,13 @@ where
                             ))
                         }
                     };
+
+                    if !(4..=MAX_STARTUP_PACKET_LENGTH).contains(&len) {
+                        return Err(Error::ClientSocketError(
+                            "password message length".into(),
+                            client_identifier,
+                        ));
+                    }
 
                     let mut password_response = vec![0u8; (len - 4) as usize];
 
